@@ -77,3 +77,71 @@ SPEC("pane.classes", "_make_init.<locals>.from_dict_unchecked",
                                                                       forall_val(lambda k: shas(as_set(getattr(final_self, "__pane_set__")), k) == shas(set_fields, k))),
                ["C14", "C16"], "set-record")],
      frame=["C09"])
+
+
+# ---------------------------------------------------------------------------------------------
+# generated __init__ (C14): construction is conversion; defaults; the set-field record; the hook runs last
+INIT_SHAPES = {"free:sig": "", "kwargs": "map", "from_dict": "map", "args": "seq", ".arguments": "map", "bound_args": "map",
+               "self.__pane_info__.fields": "seq", "self.__pane_info__.fields[]": "rec:Field", "f": "rec:Field", ".name": "str",
+               ".bind()": "rec"}
+
+
+def init_fields(self):
+    return self.__pane_info__.fields
+
+
+def wf_init(self):
+    # field names are distinct strings (established by _process: specs is a dict keyed by name)
+    return (forall(range(slen(init_fields(self))), lambda i: forall(range(slen(init_fields(self))), lambda j:
+                   implies(sat(init_fields(self), i).name == sat(init_fields(self), j).name, i == j)))
+            and forall(range(slen(init_fields(self))), lambda i: isinstance(sat(init_fields(self), i).name, str)
+                       and sat(init_fields(self), i).name != "__pane_set__"))
+
+
+def bound_arguments(sig, args, kwargs_rest):
+    return as_map(attr(methv("bind", sig, args, kwargs_rest), "arguments"))
+
+
+def expected_field_value(self, BA, checked, i):
+    f = sat(init_fields(self), i)
+    return ite(mhas(BA, f.name),
+               ite(truthy(checked), ret("pane.convert:convert", mget(BA, f.name), f.type, None), mget(BA, f.name)),
+               ite(f.default is not MISSING, f.default, call(f.default_factory)))
+
+
+SPEC("pane.classes", "_make_init.<locals>.__init__",
+     shapes=INIT_SHAPES, mutable=["self"],
+     requires=lambda self, args, kwargs, sig: wf_init(self),
+     ensures=[
+         # mapping path (_pane_from_dict): every item stored verbatim, the record is the key set
+         (lambda self, args, kwargs, sig: implies(
+             mhas(kwargs, "_pane_from_dict") and not is_none(mget(kwargs, "_pane_from_dict")),
+             forall_val(lambda k: implies(mhas(as_map(mget(kwargs, "_pane_from_dict")), k) and k != "__pane_set__",
+                                          getattr(self, k) == mget(as_map(mget(kwargs, "_pane_from_dict")), k)))
+             and forall_val(lambda k: shas(as_set(getattr(self, "__pane_set__")), k) == mhas(as_map(mget(kwargs, "_pane_from_dict")), k))),
+          ["C14"], "from-dict"),
+         # constructor path: converted (or verbatim when unchecked) arguments, defaults, fresh factory products
+         (lambda self, args, kwargs, sig, final_bound_args, final_checked: forall(
+             range(slen(init_fields(self))),
+             lambda i: implies(truthy(sat(init_fields(self), i).init),
+                               getattr(self, sat(init_fields(self), i).name) == expected_field_value(self, final_bound_args, final_checked, i))),
+          ["C14", "C06"], "fields"),
+         # the record of explicitly set fields is exactly the supplied ones
+         (lambda self, args, kwargs, sig, final_bound_args: forall(
+             range(slen(init_fields(self))),
+             lambda i: implies(truthy(sat(init_fields(self), i).init),
+                               shas(as_set(getattr(self, "__pane_set__")), sat(init_fields(self), i).name)
+                               == mhas(final_bound_args, sat(init_fields(self), i).name)))
+          and forall_val(lambda n: implies(shas(as_set(getattr(self, "__pane_set__")), n),
+                                           exists(range(slen(init_fields(self))), lambda i: sat(init_fields(self), i).name == n))),
+          ["C14"], "set-record"),
+         # __post_init__ runs exactly once for every instance created
+         (lambda self, args, kwargs, sig: implies(has_attr(self, "__post_init__"), called(attr(self, "__post_init__")) == 1), ["C14"], "hook")],
+     invariants={
+         0: lambda it, self, from_dict: forall(range(it), lambda j: getattr(self, key_at(from_dict, j)) == mget(from_dict, key_at(from_dict, j))),
+         1: lambda it, self, bound_args, checked, set_fields:
+         forall(range(it), lambda i: implies(truthy(sat(init_fields(self), i).init),
+                                             getattr(self, sat(init_fields(self), i).name) == expected_field_value(self, bound_args, checked, i)))
+         and forall(range(slen(init_fields(self))), lambda i: shas(set_fields, sat(init_fields(self), i).name) ==
+                    (i < it and truthy(sat(init_fields(self), i).init) and mhas(bound_args, sat(init_fields(self), i).name)))
+         and forall_val(lambda n: implies(shas(set_fields, n), exists(range(slen(init_fields(self))), lambda i: sat(init_fields(self), i).name == n)))})
